@@ -163,7 +163,26 @@ inductive ChainReply where
   | items (n : Nat)
   deriving Repr, DecidableEq
 
+/-- the mutexes of the light-broadcast / validator state that a background loop needs in order to step -/
+inductive LockId where
+  | pend   -- ltBroadcast.pdBlockLock  (pendBlockLoop, addLtBlock)
+  | req    -- ltBroadcast.blockReqLock (blockRequestLoop, addBlockRequest)
+  | msg    -- validator.msgLock        (manageDeniedPeer, postBlockChain)
+  deriving Repr, DecidableEq
+
+/-- how a function gives a lock back (fact re-extracted with go/ast for every function that takes one) -/
+inductive Release where
+  | deferred              -- `defer X.Unlock()` right after the Lock: released even when the function panics
+  | explicitNoCall        -- explicit Unlock, nothing in between can panic
+  | explicitAcrossCalls   -- explicit Unlock with calls / index expressions in between: a panic leaves it locked
+  deriving Repr, DecidableEq
+
+def Release.leaksOnPanic : Release → Bool
+  | .explicitAcrossCalls => true
+  | _ => false
+
 structure State where
+  held : List LockId := []        -- locks left behind by a panic that was recovered further up
   pool : Pool := {}
   pend : List Pend := []
   seen : List String := []        -- blockFilter keys
@@ -321,12 +340,26 @@ def deny (s : State) (sender : Nat) (key : String) : Res State :=
   | .panic => .panic
   | .ok s' => .ok { s' with denied := sender :: s'.denied }
 
-/-- recvLt on a state in which the filter entry survives a recovered panic (the filter is written
-before addLtBlock runs) -/
-def recvLtTotal (s : State) (i : LtIn) : State × Res LtOut :=
+/-- the light block gets as far as buildPendBlock (the checks and allocations before it went through) -/
+def reachesBuild (s : State) (i : LtIn) : Bool :=
+  !s.seen.contains i.key && i.hasHeader && decide (0 < i.txCount) && decide (i.txCount ≤ bigSlice)
+
+/-- addLtBlock's lock discipline: pdBlockLock is taken after the first buildPendBlock and released by defer -/
+def addLtBlockRelease : Release := .deferred
+
+/-- recvLt on a state in which the filter entry survives a recovered panic (the filter is written before
+addLtBlock runs); `rel` says how a pdBlockLock held around buildPendBlock would be released: with anything but
+an explicit unlock across calls a recovered panic leaves no lock behind. -/
+def recvLtTotalWith (rel : Release) (s : State) (i : LtIn) : State × Res LtOut :=
   match recvLt s i with
-  | .panic => ({ s with seen := i.key :: s.seen }, .panic)
+  | .panic => ({ s with seen := i.key :: s.seen,
+                        held := if rel.leaksOnPanic && reachesBuild s i then .pend :: s.held else s.held }, .panic)
   | .ok (s', o) => (s', .ok o)
+
+def recvLtTotal (s : State) (i : LtIn) : State × Res LtOut := recvLtTotalWith addLtBlockRelease s i
+
+/-- a background loop can step when its lock is free -/
+def loopAlive (s : State) (l : LockId) : Bool := !s.held.contains l
 
 /-! ### topic validators (validate.go) -/
 
@@ -499,6 +532,16 @@ def recovered : Path → Bool
   | .dlOld | .dlNew | .version | .peerInfo => true
   | .pendTick | .reqTick | .deniedTick => false
   | .validate | .subMsgDecode | .dlReply => false
+
+/-- lock discipline per function, as the harness re-reads it from the source: every Lock is followed by
+`defer Unlock`, or nothing between it and its explicit Unlock can panic -/
+def lockFact : String → Option String
+  | "broadcast.handleIsSyncEvent" => some "explicit-nocall"
+  | "broadcast.addLtBlock" | "broadcast.buildPendList" | "broadcast.addBlockRequest" | "broadcast.handleBlockReqList"
+  | "broadcast.addBroadcastMsg" | "broadcast.copyMsgList" | "broadcast.validateBlock" | "broadcast.reduceDeniedCount"
+  | "broadcast.addDeniedPeer" | "broadcast.isDeniedPeer" | "broadcast.recoverDeniedPeers" | "broadcast.getSyncStatus" =>
+    some "deferred"
+  | _ => none
 
 /-- the facts the harness extracts with go/ast: (package, function) ↦ has a deferred recover -/
 def hasRecoverFact : String → Option Bool
